@@ -370,3 +370,139 @@ def hard_cases(rnd, n=None, year=2001):
     cases += shallow_pond_cases(rnd, year, crops=("Maize", "Maize", "Tomato"), storms=(13, 22, 25))
     rnd.shuffle(cases)
     return cases if n is None else cases[:n]
+
+
+# ------------------------------------------------------------------------------------------------------------------------------------
+# Pairwise (2-way) covering array over the configuration dimensions.  Every independently written change that the hand-made scenario sets
+# missed needed a *pair* of settings that no scenario combined (bund parameters with bunds off x two seasons, fallow mulches x off-season days,
+# constant-depth irrigation x sliced execution, a thermal crop x year-to-year weather differences, ...): the array makes every pair of
+# levels of every two dimensions occur in at least one scenario.
+# ------------------------------------------------------------------------------------------------------------------------------------
+def _pw_factors():
+    F = {}
+    F["crop"] = ["Maize", "Wheat", "Tomato", "Potato", "Default", "MaizeGDD", "WheatGDD", "SunflowerGDD", "WheatSwitch", "PaddyRice"]
+    F["soil"] = ["SandyLoam", "Clay", "Sand", "Paddy", "clay_over_sand", "sand_over_clay", "tight", "impeding_uneven", "shallow_layers"]
+    F["irr"] = ["none", "smt_stage", "smt_cap", "int1", "int7_eff", "sched_out", "net_low", "net_high_cap", "const_cap", "const_zero"]
+    F["field"] = ["none", "mulch", "bunds_low", "bunds_high", "bunds_off_params", "sr_inhb", "cn_adj", "bund_water_over"]
+    F["fallow"] = ["none", "mulch", "bunds", "cn_adj"]
+    F["gw"] = ["none", "shallow", "near_zmax", "far", "rising", "multi_const"]
+    F["iwc"] = ["FC", "WP", "SAT", "pct40", "pct_depth_below", "pct_depth"]
+    F["off"] = [False, True]
+    F["lead"] = [0, 25]
+    F["seasons"] = [1, 2, 3]
+    F["plant"] = ["spring", "winter"]
+    F["wx"] = ["plain", "storms", "drought", "heat_flowering", "et0_floor", "yr_amp"]
+    F["co2"] = ["default", "const_high", "sparse"]
+    return F
+
+
+def pairwise_rows(seed=0, max_rows=400):
+    """greedy covering array (AETG-style): rows as dicts factor -> level; deterministic for a seed"""
+    rnd = random.Random(4242 + int(seed))
+    F = _pw_factors()
+    names = sorted(F)
+    uncovered = set()
+    for i, a in enumerate(names):
+        for b in names[i + 1:]:
+            for x in F[a]:
+                for y in F[b]:
+                    uncovered.add((a, x, b, y))
+    rows = []
+    while uncovered and len(rows) < max_rows:
+        best, best_gain = None, -1
+        for _ in range(60):
+            # seed the candidate with one uncovered pair, fill the rest at random
+            a, x, b, y = rnd.choice(sorted(uncovered)) if rnd.random() < 0.9 else (names[0], F[names[0]][0], names[1], F[names[1]][0])
+            cand = {n: rnd.choice(F[n]) for n in names}
+            cand[a], cand[b] = x, y
+            gain = sum(1 for i, p in enumerate(names) for q in names[i + 1:] if (p, cand[p], q, cand[q]) in uncovered)
+            if gain > best_gain:
+                best, best_gain = cand, gain
+        rows.append(best)
+        for i, p in enumerate(names):
+            for q in names[i + 1:]:
+                uncovered.discard((p, best[p], q, best[q]))
+    return rows
+
+
+def pairwise_scenario(row, seed, year=2001):
+    """scenario dictionary of a covering-array row (levels that are invalid together are repaired to the nearest valid one)"""
+    rnd = random.Random(seed)
+    crop, kw = row["crop"], {}
+    crop_kw = None
+    if crop == "WheatSwitch":
+        crop, crop_kw = "Wheat", {"SwitchGDD": 1}
+    thermal = crop in GDD_CROPS or crop_kw is not None
+    winter = row["plant"] == "winter" and crop in ("Wheat", "Default") and crop_kw is None
+    plant_md = (10, 15) if winter else (4, 20)
+    seasons = row["seasons"] if MATURITY_CD.get(crop, 150) < 250 else 1
+    p0 = dt.date(year, *plant_md)
+    soil_spec = None
+    nl = 1
+    s = row["soil"]
+    if s in LAYERED_SOILS:
+        soil_spec = LAYERED_SOILS[s]
+        nl = len(soil_spec.get("layers", soil_spec.get("texture_layers", [])))
+    elif s == "tight":
+        soil_spec = TIGHT_SOIL
+    elif s == "Paddy":
+        nl = 2
+    sched = [[dstr(p0 + dt.timedelta(days=d)), a] for d, a in ((5, 20), (20, 35.5), (41, 12), (75, 60), (-10, 15), (400, 25), (365 + 30, 18))]
+    irr = {"none": None, "smt_stage": {"method": 1, "kw": {"SMT": [40, 60, 75, 30]}},
+           "smt_cap": {"method": 1, "kw": {"SMT": [80] * 4, "MaxIrr": 12, "MaxIrrSeason": 90, "AppEff": 70}},
+           "int1": {"method": 2, "kw": {"IrrInterval": 1, "MaxIrr": 3}},
+           "int7_eff": {"method": 2, "kw": {"IrrInterval": 7, "AppEff": 85, "WetSurf": 40}},
+           "sched_out": {"method": 3, "schedule": sched, "kw": {"MaxIrr": 30, "AppEff": 90}},
+           "net_low": {"method": 4, "kw": {"NetIrrSMT": 35}}, "net_high_cap": {"method": 4, "kw": {"NetIrrSMT": 80, "MaxIrr": 5, "MaxIrrSeason": 40}},
+           "const_cap": {"method": 5, "kw": {"depth": 6, "MaxIrrSeason": 180, "AppEff": 75}}, "const_zero": {"method": 5, "kw": {"depth": 0}}}[row["irr"]]
+    field = {"none": None, "mulch": {"mulches": True, "mulch_pct": 70, "f_mulch": 0.6}, "bunds_low": {"bunds": True, "z_bund": 0.03, "bund_water": 10},
+             "bunds_high": {"bunds": True, "z_bund": 0.2, "bund_water": 60}, "bunds_off_params": {"bunds": False, "z_bund": 0.2, "bund_water": 30},
+             "sr_inhb": {"sr_inhb": True}, "cn_adj": {"curve_number_adj": True, "curve_number_adj_pct": 20},
+             "bund_water_over": {"bunds": True, "z_bund": 0.05, "bund_water": 80}}[row["field"]]
+    fallow = {"none": None, "mulch": {"mulches": True, "mulch_pct": 40, "f_mulch": 0.5}, "bunds": {"bunds": True, "z_bund": 0.05, "bund_water": 20},
+              "cn_adj": {"curve_number_adj": True, "curve_number_adj_pct": -25}}[row["fallow"]]
+    z = zmax_of(crop, crop_kw)
+    d0 = dstr(p0)
+    gw = {"none": None, "shallow": {"water_table": "Y", "dates": [d0], "values": [0.8]},
+          "near_zmax": {"water_table": "Y", "dates": [d0], "values": [round(max(z - 0.02, 0.4), 2)]},
+          "far": {"water_table": "Y", "dates": [d0], "values": [8.0]},
+          "rising": {"water_table": "Y", "method": "Variable", "dates": [dstr(p0 - dt.timedelta(days=40)), dstr(p0 + dt.timedelta(days=70)), dstr(p0 + dt.timedelta(days=900))], "values": [2.4, 0.7, 1.9]},
+          "multi_const": {"water_table": "Y", "method": "Constant", "dates": [dstr(p0 - dt.timedelta(days=50)), dstr(p0 + dt.timedelta(days=40)), dstr(p0 + dt.timedelta(days=100))], "values": [1.2, 2.0, 0.9]}}[row["gw"]]
+    lay = list(range(1, nl + 1))
+    iwc = {"FC": {"value": ["FC"] * nl, "depth_layer": lay}, "WP": {"value": ["WP"] * nl, "depth_layer": lay}, "SAT": {"value": ["SAT"] * nl, "depth_layer": lay},
+           "pct40": {"wc_type": "Pct", "value": [40] * nl, "depth_layer": lay},
+           "pct_depth_below": {"wc_type": "Pct", "method": "Depth", "depth_layer": [0.2, 0.8, 3.5], "value": [70, 40, 55]},
+           "pct_depth": {"wc_type": "Pct", "method": "Depth", "depth_layer": [0.15, 0.6, 1.1], "value": [85, 35, 60]}}[row["iwc"]]
+    events, wparams = None, None
+    flower = {"Maize": 66, "MaizeGDD": 66, "Wheat": 127, "WheatGDD": 127, "Tomato": 43, "SunflowerGDD": 60, "Potato": 46, "Default": 50, "PaddyRice": 65}.get(crop, 60)
+    if row["wx"] == "storms":
+        events = storm_events(year, plant_md, (60, 140, 35, 90))
+    elif row["wx"] == "drought":
+        events = drought_events(year, plant_md, 90)
+    elif row["wx"] == "heat_flowering":
+        events = [{"from": dstr(dt.date(year + k, *plant_md) + dt.timedelta(days=flower - 8)), "to": dstr(dt.date(year + k, *plant_md) + dt.timedelta(days=flower + 14)), "Tmax": 41.5, "Tmin": 27.0} for k in range(seasons)]
+    elif row["wx"] == "et0_floor":
+        events = [{"from": dstr(p0 + dt.timedelta(days=55)), "to": dstr(p0 + dt.timedelta(days=58)), "ET0": 0.1}, {"date": dstr(p0 + dt.timedelta(days=85)), "ET0": 0.1}]
+    elif row["wx"] == "yr_amp":
+        wparams = {"yr_amp": 3.0}
+    co2 = {"default": None, "const_high": {"constant_conc": True, "current_concentration": 552.0},
+           "sparse": {"co2_data": [[1990, 355.0], [2000, 369.5], [2003, 378.0], [2010, 390.0]]}}[row["co2"]]
+    harvest = None
+    regime = "hot" if thermal else None
+    sc = scenario(crop, s if soil_spec is None else "SandyLoam", regime=regime, seed=rnd.randrange(10 ** 6), plant_md=plant_md, year=year, seasons=seasons,
+                  lead=row["lead"], irr=irr, field=field, fallow=fallow, gw=gw, iwc=iwc, off_season=row["off"], events=events, crop_kw=crop_kw,
+                  harvest_date=harvest, soil_spec=soil_spec, co2=co2, wparams=wparams)
+    sc["_pairwise"] = {k: (v if not isinstance(v, bool) else int(v)) for k, v in row.items()}
+    return sc
+
+
+def pairwise_cases(seed=0, part=None, parts=None, year=2001):
+    rows = pairwise_rows(0)                      # ONE array (the seed only varies the weather / random details of its scenarios)
+    out = []
+    for i, r in enumerate(rows):
+        if parts and (i % parts) != (part % parts):
+            continue
+        sc = pairwise_scenario(r, 77000 + 131 * i + int(seed), year)
+        if deepenable(sc):
+            out.append(sc)
+    return out
